@@ -213,7 +213,7 @@ func runC14(c *Ctx) {
 			}
 		}
 	}
-	c.floor("card-provenance", "store sites of card fields", nSt, 5)
+	c.floor("card-provenance", "store sites of card fields", nSt, 3)
 	// deck stores
 	for _, w := range ix.AnyWriters("pokerface.Meta.Deck") {
 		c.touch(fnKey(w))
